@@ -615,7 +615,7 @@ func (h *harness) objects(xs []pdf.Object, class string, nontrivial bool) {
 			// beyond the limits: the two scanners must still agree
 			h.e.Line("impl.obs", "%s %s", id, realScan(text))
 		}
-		if inLimits && dict2 {
+		if inLimits && dict2 && (p == 0 || class == "key-family") {
 			// the key sequence the formatter emitted, as the model scanner reads it from the
 			// text, against the model's SortedKeys order (Scan.text_ordered)
 			id := h.id("k")
